@@ -16,23 +16,27 @@ func gCompletion(src string, bs *schema.BodySchema, prefill bool) {
 	d := verifDecoder(bs, map[string]*hcl.File{"test.tf": f})
 	d.PrefillRequiredFields = prefill
 	pos := verifAnyPos("test.tf")
-	verifFreeze()
-	cs, err := d.CompletionAtPos(context.Background(), "test.tf", pos)
-	if err == nil {
-		gCheckCandidates(cs, pos)
-	}
-	verifNoWrites("C04/C05:completion", false)
+	verifFreeze(d.pathCtx)
+	verifQuery(func() {
+		cs, err := d.CompletionAtPos(context.Background(), "test.tf", pos)
+		if err == nil {
+			gCheckCandidates(cs, pos)
+		}
+	})
+	verifNoWrites("C04:completion", true)
+	verifNoWrites("C05:completion", false)
 	verifReach("end")
 }
 
 func gCheckCandidates(cs lang.Candidates, pos hcl.Pos) {
+	at := verifCursorTag()
 	verifAssert(len(cs.List) <= 100, "C06:limit")
 	for _, c := range cs.List {
 		r := c.TextEdit.Range
-		verifAssert(verifRealRange("test.tf", r), "C02/C06:edit-range-real")
-		verifAssert(r.Start.Byte <= pos.Byte, "C06:edit-starts-at-or-before-cursor")
+		verifAssert(verifRealRange("test.tf", r), "C02/C06:edit-range-real"+at)
+		verifAssert(r.Start.Byte <= pos.Byte, "C06:edit-starts-at-or-before-cursor"+at)
 		if r.End.Byte < pos.Byte {
-			verifAssert(verifBlankBetween("test.tf", r.End.Byte, pos.Byte), "C06:edit-reaches-cursor")
+			verifAssert(verifBlankBetween("test.tf", r.End.Byte, pos.Byte), "C06:edit-reaches-cursor"+at)
 		}
 	}
 }
